@@ -323,6 +323,9 @@ def C19(ck):
                               "through the table of signatures the harness's honest signers produced"]
     ck.add_model(vlib.mc("MC_Evidence", "MC_Evidence_replay.cfg"))
     ck.add_model(vlib.mc("MC_Evidence", "MC_Evidence_small.cfg" if ck.tier == "quick" else "MC_Evidence_full.cfg", timeout=3000))
+    if ck.tier != "quick":
+        # the composition (claims + wire + dispatch + Evidence with real tokens): end-to-end Binding / NoForgery
+        ck.add_model(vlib.mc("Psa", "MC_Psa.cfg", timeout=3500, workers=12))
     _ev_hist(ck, 600 if ck.tier == "quick" else 20000, allalgs=ck.tier != "quick")
 
 
@@ -361,6 +364,8 @@ def C03(ck):
                "Evidence histories (re-signing after decode, two signs); non-trivial = every (set, algorithm) pair")
     ck.assumptions = TRUST + ["go-cose's arithmetic is exercised, not modelled"]
     ck.add_model(vlib.mc("MC_Evidence", "MC_Evidence_replay.cfg"))
+    if ck.tier != "quick":
+        ck.add_model(vlib.mc("Psa", "MC_Psa.cfg", timeout=3500, workers=12))     # EmittedTokensConform on the composition
     valid = vlib.gen_export("Gen_Valid", "Gen_Valid.cfg", "valid")
     try:
         ck.run_and_judge(["ev-signrt", "-seed", ck.seed, "-tier", ck.tier, "-n", _stride(ck, 40, 3), "-reg", "X2", "-chunk", 3000,
